@@ -685,6 +685,8 @@ def run(model, col, tier):
             col.ok("R10.6", f"{TYPES}::{fname} attribute resolution", f"{checked} attribute uses on predicate-narrowed parameters all resolve")
     col.floor("R10.6", "attribute uses on narrowed parameters", total, 20)
     check_exported_unique(model, col, "R10.8")
+    check_import_loops(model, col, "R10.3")
+    check_callee_binding(model, col, "R10.2")
     # Function.Match counts the declared parameters but compares against the resolved table: the table has one entry per
     # declared parameter, named or not (= R03.5)
     res = model.cls(TYPES, "Function").own_method("Resolve")
@@ -700,6 +702,103 @@ def run(model, col, tier):
     col.check(per_iter, "R10.4", f"{TYPES}::Function.Resolve one entry per parameter", "every declared parameter (named or unnamed) adds exactly one entry to the table Match compares against",
               "a declared parameter can be skipped when the parameter table is filled: Match then pairs the arguments with the wrong parameter types (an unnamed `float2` parameter "
               "matches anything), so a non-viable candidate scores 0 and wins", TYPES, res)
+
+
+def check_callee_binding(model, col, rule):
+    """The callee of a call is what Scope.FindFunction chose: the `function` field of a call expression is written in
+    CallExpression.ResolveType only, and the type pass resolves every call expression that way (no shortcut that binds a
+    callee without the viability / ranking rules)."""
+    from ..sem import expand_helpers
+
+    ASTF_ = "nsl/ast/__init__.py"
+    ce = model.cls(ASTF_, "CallExpression")
+    rt = ce.own_method("ResolveType")
+    if rt is None:
+        raise AnchorMissing(f"{ASTF_}::CallExpression.ResolveType")
+    fld = next((t.attr for n in ast.walk(rt) if isinstance(n, ast.Assign) for t in n.targets if isinstance(t, ast.Attribute) and isinstance(t.value, ast.Name) and t.value.id == rt.args.args[0].arg
+                and any(isinstance(c, ast.Call) and last_attr(c) in ("FindFunction", "ResolveFunction") for c in ast.walk(n.value))), None)
+    col.check(fld is not None, rule, f"{ASTF_}::CallExpression.ResolveType binds the callee from FindFunction", "self.<field> = <scope lookup>(name, argument types)",
+              "CallExpression.ResolveType no longer stores the result of the scope's function lookup", ASTF_, rt)
+    if fld is None:
+        return
+    foreign = []
+    for rel, fi in sorted(model.files.items()):
+        if not rel.startswith("nsl/"):
+            continue
+        for fn in [x for x in ast.walk(fi.tree) if isinstance(x, ast.FunctionDef)]:
+            if fn is rt or any(fn is m_ for m_ in ce.methods.values() if m_.name == "__init__"):
+                continue
+            for n in ast.walk(fn):
+                tg = n.targets if isinstance(n, ast.Assign) else [n.target] if isinstance(n, (ast.AugAssign, ast.AnnAssign)) else []
+                for t in tg:
+                    if isinstance(t, ast.Attribute) and t.attr == fld and not (isinstance(t.value, ast.Name) and t.value.id == "self" and rel != ASTF_):
+                        foreign.append((rel, fn.name, n))
+    # (a `self.function = ..` in an unrelated class of another file is that class's own field)
+    foreign = [x for x in foreign if not (isinstance(x[2], ast.Assign) and isinstance(x[2].targets[0].value, ast.Name) and x[2].targets[0].value.id == "self" and x[0] == ASTF_ and x[1] != "ResolveType"
+                                          and not any(x[1] == m_ for m_ in ce.methods))]
+    col.check(not foreign, rule, f"nsl/:: only CallExpression.ResolveType binds a call's `{fld}`", f"no other function assigns `.{fld}`",
+              f"`{' '.join(unparse(foreign[0][2]).split())[:70] if foreign else ''}` in {foreign[0][0] if foreign else ''}::{foreign[0][1] if foreign else ''} binds a callee outside the overload rules: "
+              "a candidate that is not viable (or not the best) is called", foreign[0][0] if foreign else ASTF_, foreign[0][2] if foreign else rt)
+    ctv_ = model.cls(CT, "ComputeTypeVisitor")
+    pe0 = ctv_.own_method("_ProcessExpression")
+    pe = expand_helpers(model, ctv_, pe0)
+    ep, sp = pe.args.args[1].arg, pe.args.args[2].arg
+
+    def fold(t):
+        if isinstance(t, ast.Call) and isinstance(t.func, ast.Name) and t.func.id == "isinstance" and len(t.args) == 2 and unparse(t.args[0]) == ep:
+            alts = [unparse(e).split(".")[-1] for e in ast.walk(t.args[1]) if isinstance(e, (ast.Name, ast.Attribute)) and not isinstance(getattr(e, "ctx", None), ast.Store)]
+            alts = [a_ for a_ in alts if a_[:1].isupper()]
+            return any(a_ in {c.name for c in ce.mro} for a_ in alts)
+        return None
+
+    unresolved = None
+    ncall = 0
+    for evs, status in paths(pe.body, fold=fold):
+        if status == "raise":
+            continue
+        ncall += 1
+        if not any(last_attr(c) == "ResolveType" and isinstance(c.func, ast.Attribute) and unparse(c.func.value) == ep and [unparse(a) for a in c.args] == [sp] for c in calls_on_path(evs)):
+            unresolved = unresolved or [(k[:60], v) for k, v in cond_atoms(evs).items() if "isinstance" not in k][:3]
+    col.floor(rule, "paths of the type pass taken by a call expression", ncall, 1)
+    col.check(unresolved is None, rule, f"{CT}::_ProcessExpression resolves every call through the scope", f"every path a CallExpression takes calls {ep}.ResolveType({sp})",
+              f"under {unresolved} a call expression is typed without {ep}.ResolveType({sp}): its callee is bound without checking that the arguments are convertible and without ranking the overloads", CT, pe0)
+
+
+def check_import_loops(model, col, rule):
+    """Every imported module contributes its functions: in the type pass's and in the linker's loop over import names, every
+    path of the body loads the module named by the loop variable, unless a test on *that very name* (`name in <seen set>`)
+    says it was loaded before.  A skip decided on something derived from the name (its stem, its lower-case form) merges
+    different modules."""
+    from ..sem import expand_helpers, local_env, rtext
+
+    sites = []
+    ctv_ = model.cls(CT, "ComputeTypeVisitor")
+    sites.append((CT, ctv_, expand_helpers(model, ctv_, ctv_.own_method("v_Module"), skip=("v_", "__RegisterFunction", "_ComputeTypeVisitor__RegisterFunction"))))
+    lk_ = model.cls("nsl/LinearIR.py", "Linker")
+    sites.append(("nsl/LinearIR.py", lk_, expand_helpers(model, lk_, lk_.own_method("Link"))))
+    n = 0
+    for rel, ci, f in sites:
+        env = local_env(f, allow_impure=True)
+        for lp in [l for l in ast.walk(f) if isinstance(l, ast.For) and isinstance(l.target, ast.Name)]:
+            loads = [c for s in lp.body for c in ast.walk(s) if isinstance(c, ast.Call) and last_attr(c) == "Load" and c.args and rtext(c.args[0], env) == lp.target.id]
+            if not loads:
+                continue
+            n += 1
+            var = lp.target.id
+            skipped = None
+            for evs, status in paths(lp.body, loop_iters=(0, 1)):
+                if status == "raise":
+                    continue
+                if any(c in loads for c in calls_on_path(evs)):
+                    continue
+                a = cond_atoms(evs, env)
+                own = [k for k, v in a.items() if v is True and k.replace(" ", "").startswith(f"{var}in")]
+                if not own:
+                    skipped = skipped or [(k[:60], v) for k, v in a.items()][:3]
+            col.check(skipped is None, rule, f"{rel}::{ci.name}.{f.name} loads every imported module", f"each `{var}` is loaded unless `{var}` itself was seen before",
+                      f"under {skipped} the module named by `{var}` is not loaded although that name was not seen before: two different modules are taken for one, and the functions of "
+                      "the second never become overload candidates / never reach the program", rel, lp)
+    col.floor(rule, "import loops", n, 2)
 
 
 def check_exported_unique(model, col, rule):
